@@ -121,3 +121,91 @@ Example C07_ex_augment :
              compute j' false = Ok InProgress [("Reconciling", "True")].
 Proof. eexists. split; [vm_compute; reflexivity|]. split; vm_compute; reflexivity. Qed.
 Print Assumptions C07_dispatch_from_source.
+
+(* ==== At the status readers ===================================================
+   The StatusPoller, the StatusWatcher and the applier do not call
+   status.Compute directly but statusreaders.NewDefaultStatusReader, whose
+   readers wrap it (Model/KStatusReader.v: Deployment -> ReplicaSets -> Pods,
+   ReplicaSet / StatefulSet -> Pods, every other kind the generic reader).
+   `read_top (Node j w sel lst kids)` is ReadStatusForObject on the object j
+   whose list call returns `kids`; `sel` = spec.selector is usable, `lst` =
+   the list call's error class.
+
+   Relation to the property text.  The first conjunct is the text's first
+   clause at the reader: a deletion timestamp yields Terminating whatever the
+   kind and whatever the state of the pods.  The second says that every
+   answer of Compute — so every answer decided by a generic signal (C07_* above)
+   — is reported unchanged, with ONE exception, which is what the unchanged
+   code does (pod_controller.go:64): for a ReplicaSet / StatefulSet an
+   InProgress answer (be it from a generation mismatch, a true Reconciling
+   condition or the kind rule) becomes Failed when a selected pod is Failed.
+   So at the reader the generic InProgress signals are NOT final against that
+   kind-specific rule; Terminating, Stalled=>Failed and Current are.  The
+   hypothesis `reader_of j = RGeneric \/ (sel = true /\ lst = LOk)` is also
+   what the code does: the readers of the three listing kinds evaluate the
+   selector and list the generated resources BEFORE they call Compute, so a
+   terminating StatefulSet without a usable selector is Unknown (with the
+   error), not Terminating (C09_reader_total_shape covers those paths). *)
+From CliUtils Require Import Model.KStatusReader Proofs.KStatusReaderProofs.
+
+Theorem C07_reader_generic_precedence : forall (j : jv) (w sel : bool) (lst : lerr) (kids : list node) (r : rres),
+  read_top (Node j w sel lst kids) = Some r ->
+  reader_of j = RGeneric \/ (sel = true /\ lst = LOk) ->
+  (forall s, nested_string j p_deletion = Found s -> s <> "" ->
+     rr_status r = Terminating /\ rr_error r = false) /\
+  (forall s cs, compute j w = Ok s cs ->
+     rr_error r = false /\
+     (rr_status r = s \/
+      (s = InProgress /\ rr_status r = Failed /\ reader_of j = RPodCtl /\
+       exists p, In p (rr_gen r) /\ rr_status p = Failed))) /\
+  (forall cs p, compute j w = Ok InProgress cs -> reader_of j = RPodCtl ->
+     In p (rr_gen r) -> rr_status p = Failed -> rr_status r = Failed).
+Proof. exact reader_generic_precedence. Qed.
+
+(* the same rule on statuses alone: what the pod-controller reader reports for
+   Compute's outcome and the statuses of the selected pods *)
+Theorem C07_reader_status_rule : forall (c : outcome) (pods : list status),
+  (c = Err -> reader_status c pods = Unknown) /\
+  (forall s cs, c = Ok s cs -> s <> InProgress \/ count_failed pods = 0 -> reader_status c pods = s) /\
+  (forall cs, c = Ok InProgress cs -> 0 < count_failed pods -> reader_status c pods = Failed).
+Proof. exact reader_status_rule. Qed.
+
+Theorem C07_reader_status_of_result : forall (id : rid) (c : outcome) (pods : list rres),
+  rr_status (pod_controller_result id c pods) = reader_status c (map rr_status pods) /\
+  rr_error (pod_controller_result id c pods) = (match c with Err => true | Ok _ _ => false end) /\
+  rr_gen (pod_controller_result id c pods) = pods /\
+  rr_id (pod_controller_result id c pods) = id.
+Proof. exact pod_controller_status. Qed.
+
+Print Assumptions C07_reader_generic_precedence.
+Print Assumptions C07_reader_status_rule.
+Print Assumptions C07_reader_status_of_result.
+
+(* non-vacuity: a terminating StatefulSet with a crash-looping pod is
+   Terminating (the input on which a widened override guard answers Failed);
+   the same StatefulSet merely behind its generation is Failed "1 pods have
+   failed" (the documented exception) *)
+Definition exr_crash_pod : jv :=
+  JObj [("apiVersion", JStr "v1"); ("kind", JStr "Pod");
+        ("metadata", JObj [("name", JStr "web-0"); ("namespace", JStr "ns")]);
+        ("status", JObj [("phase", JStr "Running");
+                         ("containerStatuses",
+                          JArr [JObj [("name", JStr "c");
+                                      ("state", JObj [("waiting", JObj [("reason", JStr "CrashLoopBackOff")])])]])])].
+Definition exr_sts (deletion : list (string * jv)) (observed : Z) : jv :=
+  JObj [("apiVersion", JStr "apps/v1"); ("kind", JStr "StatefulSet");
+        ("metadata", JObj ([("name", JStr "web"); ("namespace", JStr "ns"); ("generation", JInt 3)] ++ deletion));
+        ("spec", JObj [("replicas", JInt 1)]);
+        ("status", JObj [("observedGeneration", JInt observed); ("replicas", JInt 1); ("readyReplicas", JInt 0)])].
+Definition exr_pod_result : rres := RRes ("ns", "", "Pod", "web-0") Failed false MsgCompute [].
+
+Example C07_ex_reader_terminating :
+  read_top (Node (exr_sts [("deletionTimestamp", JStr "2024-01-01T00:00:00Z")] 3) false true LOk
+                 [Node exr_crash_pod false true LOk []])
+  = Some (RRes ("ns", "apps", "StatefulSet", "web") Terminating false MsgCompute [exr_pod_result]).
+Proof. vm_compute. reflexivity. Qed.
+Example C07_ex_reader_override :
+  compute (exr_sts [] 2) false = Ok InProgress [("Reconciling", "True")] /\
+  read_top (Node (exr_sts [] 2) false true LOk [Node exr_crash_pod false true LOk []])
+  = Some (RRes ("ns", "apps", "StatefulSet", "web") Failed false (MsgPodsFailed 1) [exr_pod_result]).
+Proof. split; vm_compute; reflexivity. Qed.
